@@ -60,6 +60,7 @@ type sess struct {
 	zombies        map[string]bool     // directories that may still physically hold entries the model has expired
 	chunkRun       bool                // C36: files carry real chunk bytes on replicated stub volume servers
 	curFired       string              // store call that was failed inside the current operation ("" = none)
+	stopRun        bool                // stop executing further steps (see settleFaulted)
 	excusedOrphans map[string]bool     // entries left under a deleted parent by ignore_recursive_error + injected store failure
 	sigs           []int32             // signatures the next request carries (C36: a change that came from the target cluster)
 	fromOther      bool
@@ -167,6 +168,21 @@ func (s *sess) sut(f func() error) (err error, run *runaway) {
 		}
 	}()
 	s.n.st.beginOp()
+	deepest, uni := 0, 0
+	for _, p := range s.model.paths() {
+		if d := strings.Count(p, "/"); d > deepest {
+			deepest = d
+		}
+	}
+	for _, p := range s.universe {
+		if d := strings.Count(p, "/"); d > uni {
+			uni = d
+		}
+	}
+	depthLimit = maxLegitDepth
+	if deepest+uni+3 > depthLimit {
+		depthLimit = deepest + uni + 3
+	}
 	err = f()
 	return
 }
@@ -181,7 +197,17 @@ func errOf(err error, respErr string) error {
 	return nil
 }
 
+// structOnly: in runs with cfg "fidstruct" the requests name their chunks by the structured id only (file_id
+// string empty), the form entries have inside the stores and on the wire between filers.
+func (s *sess) structOnly(e *filer_pb.Entry) {
+	if s.r.Plan.C("fidstruct") == 1 && e != nil && len(e.Chunks) > 0 {
+		filer_pb.BeforeEntrySerialization(e.Chunks)
+		s.r.Probe("request-names-chunks-by-struct-only")
+	}
+}
+
 func (s *sess) rpcCreate(e *filer_pb.Entry, dir string, oexcl bool) error {
+	s.structOnly(e)
 	resp, err := s.n.fs.CreateEntry(ctx, &filer_pb.CreateEntryRequest{Directory: dir, Entry: e, OExcl: oexcl, IsFromOtherCluster: s.fromOther, Signatures: s.sigs})
 	if resp != nil {
 		return errOf(err, resp.Error)
@@ -190,6 +216,7 @@ func (s *sess) rpcCreate(e *filer_pb.Entry, dir string, oexcl bool) error {
 }
 
 func (s *sess) rpcUpdate(e *filer_pb.Entry, dir string) error {
+	s.structOnly(e)
 	_, err := s.n.fs.UpdateEntry(ctx, &filer_pb.UpdateEntryRequest{Directory: dir, Entry: e, IsFromOtherCluster: s.fromOther, Signatures: s.sigs})
 	return err
 }
@@ -248,6 +275,22 @@ func (s *sess) snapFromStep(st *simkit.Step, p string) (*snap, map[string][]byte
 		}
 		off += int64(sz)
 		e.Chunks = append(e.Chunks, c)
+	}
+	if keep := int(st.Int("keepold")); keep > 0 {
+		// the writer keeps some of the file's current chunks (a partial overwrite, an append done by the client)
+		if cur := s.model.nodes[p]; cur != nil && !cur.s.IsDir && cur.link == nil { // (plain files only: sharing chunks with a link group is the recorded hard-link findings' business)
+			var kept []mchunk
+			for _, c := range s.model.expected(p).Chunks {
+				if !c.Manifest && len(kept) < keep {
+					c.NonCanon = ""
+					kept = append(kept, c)
+				}
+			}
+			if len(kept) > 0 {
+				e.Chunks = append(kept, e.Chunks...)
+				s.r.Probe("write-keeps-existing-chunks")
+			}
+		}
 	}
 	if k := int(st.Int("mf")); k > 0 && len(e.Chunks) >= 2 && s.vs != nil {
 		if k > len(e.Chunks) {
@@ -587,7 +630,7 @@ func (s *sess) observe(extra ...*model) *observation {
 	o := &observation{entries: map[string]*snap{}}
 	var walk func(dir string, depth int) bool
 	walk = func(dir string, depth int) bool {
-		if depth > maxLegitDepth+2 {
+		if depth > depthLimit+2 {
 			r.Violate("tree-too-deep", s.lastOp, "listing reached depth %d at %s", depth, dir)
 			return false
 		}
@@ -958,6 +1001,11 @@ func (s *sess) settleGC(out outcome, err error, before, after *model, faulted bo
 	if s.r.Violated() {
 		return
 	}
+	if faulted && err != nil && len(before.links) > 0 {
+		// a failed, possibly half-done operation on a tree with hard links (no transactions): the shared records may
+		// now disagree with the names, and later chunk deletions follow from that; the run is judged up to here
+		s.stopRun = true
+	}
 	target := after
 	if err != nil && out != mustFailPartial {
 		target = before
@@ -1043,6 +1091,12 @@ func (s *sess) settleFaulted(out outcome, err error, before, after *model, fired
 		r.Probe("failed-op-left-intermediate-state")
 		r.Log("observation: intermediate state after failed %s: %s", s.lastOp, s.compare(before, o).msg)
 		s.model = s.modelFromObs(o, after)
+		if len(s.model.links) > 0 {
+			// a half-done operation on a tree with hard links: the shared records (counters) may disagree with the
+			// names in ways the observation cannot express, and what follows is a consequence of the missing
+			// transaction, not something the statements speak about. The run is judged up to here.
+			s.stopRun = true
+		}
 	}
 	s.gcResync()
 }
